@@ -83,6 +83,19 @@ def _injected(p, mi, cont, w):
             return False
         return True
     if cont == 2:  # a design sharing sub-modules with the failed one
+        wr = fresh = None
+        if mi != 1:
+            # first, before anything else completes its elaboration: a parent made by the built-in Wrapper around a shared
+            # sub-module (Mid, with its bundle port), which the failed run may have left flattened but not elaborated
+            from hdl21.generators import Wrapper
+            iface = lambda mm: (sorted(mm.ports), sorted(mm.bundle_ports))
+            try:
+                wr = Wrapper(mods[1])
+                fresh = Wrapper(_mods(w)[1])
+            except Exception as e:
+                return _fail("Wrapper of a shared sub-module of the failed design raised: " + _norm(e)[-200:])
+            if iface(wr) != iface(fresh):
+                return _fail(f"Wrapper of a shared sub-module has ports {iface(wr)}, a fresh process gives {iface(fresh)}")
         try:
             got = _bytes(mods[3])
         except Exception:
@@ -90,14 +103,12 @@ def _injected(p, mi, cont, w):
         if got != want[3]:
             WHY["why"] = "sharing design exported something a fresh process would not"
             return False
-        if mi != 1:
-            # ... and a parent made by the built-in Wrapper around a shared sub-module (Mid, with its bundle port)
-            from hdl21.generators import Wrapper
+        if wr is not None:
             try:
-                gw = _bytes(Wrapper(mods[1]))
+                gw = _bytes(wr)
             except Exception as e:
                 return _fail("Wrapper of a shared sub-module of the failed design raised: " + _norm(e)[-200:])
-            if gw != _bytes(Wrapper(_mods(w)[1])):
+            if gw != _bytes(fresh):
                 return _fail("Wrapper of a shared sub-module differs from a fresh process")
         return True
     # cont == 3: the user code is removed ('repair'), same design again: fresh result or an exception
